@@ -51,7 +51,7 @@ func (s *vhTabState) vhCandidate() *enode.Node {
 //
 //verif:harness C07.add_node unwind=80 timeout=60 noassumecheck
 //verif:use tablestep
-//verif:param SHAPES=5/7 BUCKETS=2/4
+//verif:param SHAPES=6/7 BUCKETS=2/4
 func vhC07AddNode() {
 	vhInitDoneSymbolic = true
 	k, m := vhShape()
@@ -103,7 +103,7 @@ func vhC07AddNode() {
 //
 //verif:harness C07.delete_and_track unwind=80 timeout=60 noassumecheck
 //verif:use tablestep
-//verif:param SHAPES=5/7 BUCKETS=2/4
+//verif:param SHAPES=6/7 BUCKETS=2/4
 func vhC07DeleteAndTrack() {
 	vhInitDoneSymbolic = false
 	k, m := vhShape()
@@ -159,7 +159,7 @@ func vhC07DeleteAndTrack() {
 //
 //verif:harness C07.revalidation unwind=80 timeout=60 noassumecheck
 //verif:use tablestep
-//verif:param SHAPES=5/7 BUCKETS=2/4
+//verif:param SHAPES=6/7 BUCKETS=2/4
 func vhC07Revalidation() {
 	vhInitDoneSymbolic = false
 	k, m := vhShape()
@@ -226,15 +226,15 @@ func init() {
 
 //verif:harness C18.add_step unwind=80 timeout=60 noassumecheck
 //verif:use tablestep
-//verif:param SHAPES=5/7 BUCKETS=2/4
+//verif:param SHAPES=6/7 BUCKETS=2/4
 func vhC18AddStep() { vhC07AddNode() }
 
 //verif:harness C18.delete_and_track_step unwind=80 timeout=60 noassumecheck
 //verif:use tablestep
-//verif:param SHAPES=5/7 BUCKETS=2/4
+//verif:param SHAPES=6/7 BUCKETS=2/4
 func vhC18DeleteAndTrackStep() { vhC07DeleteAndTrack() }
 
 //verif:harness C18.revalidation_step unwind=80 timeout=60 noassumecheck
 //verif:use tablestep
-//verif:param SHAPES=5/7 BUCKETS=2/4
+//verif:param SHAPES=6/7 BUCKETS=2/4
 func vhC18RevalidationStep() { vhC07Revalidation() }
